@@ -769,6 +769,11 @@ class Reindex(BoundedCheck):
         c.add_variable('I', [1, 2, 3, 4], dtype=int)
         c.add_variable('B', [True, False, True, False], dtype=bool)
         c.add_variable('S', ['aa', 'bb', 'cc', 'dd'], dtype='<U2')
+        # narrower and unsigned integer types and a narrower float: "all dtypes" is not only the platform defaults
+        import numpy as _np
+        c.add_variable('I16', [1, 2, 3, 4], dtype=_np.int16)
+        c.add_variable('U8', [1, 2, 3, 4], dtype=_np.uint8)
+        c.add_variable('F32', [0.5, 1.5, 2.5, 3.5], dtype=_np.float32)
         c.add_attribute('note', 'n')
         before = {k: c[k].copy() for k in c.index}
         fills = dict(case['fills'])
@@ -796,7 +801,7 @@ class Reindex(BoundedCheck):
             out.append(Violation('result is a new object of the same class with the new span and the same variable order', 'c12.shape', case,
                                  [type(c).__name__, list(new), list(c.index)], [type(r).__name__, list(r.span), list(r.index)], 'reindexed'))
             return out
-        defaults = {'f': float('nan'), 'i': 0, 'b': False, 'U': ''}
+        defaults = {'f': float('nan'), 'i': 0, 'u': 0, 'b': False, 'U': ''}
         if len(new) != len(set(map(repr, new))):
             res.cover('repeated-label')
         for k in c.index:
@@ -828,7 +833,7 @@ class Reindex(BoundedCheck):
                             want = c[k, lab]
                 else:
                     res.cover('new-period')
-                    want = {'f': float, 'i': int, 'b': bool, 'U': str}[kind](fill)
+                    want = {'f': float, 'i': int, 'u': int, 'b': bool, 'U': str}[kind](fill)
                     if kind == 'U':
                         want = want[:c[k].dtype.itemsize // 4]
                 got = r[k][i]
